@@ -25,6 +25,13 @@ def run(rep, drv):
 				'integer window; normal-demand r_q_cost vs independent quadrature; r(Q) equalises g(r), g(r+Q) and minimises over r; approximations satisfy their defining '
 				'equations. non-trivial = Q >= 2')
 	# operation histories: the same item evaluated for several lead times in one process (sensitivity study), then fresh items
+	LOWMEAN = [(2, 4, 50, 1, 1), (10, 20, 50, 0.5, 0.1)]
+	for h_, p_ in ((2, 4), (10, 20), (1, 9), (3, 3)):
+		for K_ in (5, 20, 50):
+			for lam_, L_ in ((0.5, 0.1), (1, 0.2), (1, 1), (2, 0.25)):
+				qd_ = math.sqrt(2 * K_ * lam_ * (h_ + p_) / (h_ * p_))
+				if qd_ - math.floor(qd_) >= 0.5 and len(LOWMEAN) < 14:
+					LOWMEAN.append((h_, p_, K_, lam_, L_))
 	items = []
 	for k in range(400 if th else 60):
 		if k % 3 == 0 or not items:
@@ -36,6 +43,10 @@ def run(rep, drv):
 				items.append((rng.choice([0.5, 1, 2, 3]), rng.choice([4, 9, 18, 36]), rng.choice([2, 8, 20, 64]), rng.choice([0.5, 1.5, 3, 6])))
 		h, p, K, lam = items[-1]
 		L = [2, 4, 1, 0.5][k % 3] if k % 3 else rng.choice([1, 2, 0.5])
+		if k < len(LOWMEAN):
+			# corpus: nearly deterministic lead-time demand (lambda L <= 1) with an EOQB quantity whose fractional part is >= 1/2 -- there the optimal
+			# integer Q can be the integer BELOW the continuous-model quantity
+			h, p, K, lam, L = LOWMEAN[k]; rep.count('fz:low-mean-corpus')
 		mu = lam * L
 		hi = int(poisson.ppf(1 - 1e-12, mu)) + 60
 		lo = -10
@@ -178,6 +189,22 @@ def run(rep, drv):
 			bad.append('raised %s %s' % (err_enum(e), traceback.format_exc()[-200:]))
 		if bad:
 			rep.diff('normal', '; '.join(bad[:3]), case, py=bad, oracle=True, theorem=THEOREM)
+
+	H = core.one_argument_histories
+	calls = []
+	for kw in H(dict(holding_cost=2, stockout_cost=9, fixed_cost=20, demand_mean=3, lead_time=1.5), ['holding_cost', 'stockout_cost', 'fixed_cost', 'demand_mean', 'lead_time']):
+		calls.append(('stockpyl.rq', 'r_q_poisson_exact', (), kw))
+	for kw in H(dict(reorder_point=4, order_quantity=6, holding_cost=2, stockout_cost=9, fixed_cost=20, demand_mean=3, lead_time=1.5), ['reorder_point', 'order_quantity', 'fixed_cost', 'demand_mean'],
+				lambda k, v: v + 2 if k in ('reorder_point', 'order_quantity') else v * 1.5 + 1):
+		calls.append(('stockpyl.rq', 'r_q_cost_poisson', (), kw))
+	for fn in ('r_q_eil_approximation', 'r_q_eoqb_approximation', 'r_q_eoqss_approximation', 'r_q_loss_function_approximation'):
+		for kw in H(dict(holding_cost=0.225, stockout_cost=7.5, fixed_cost=8, demand_mean=1300, demand_sd=150, lead_time=1 / 12), ['stockout_cost', 'fixed_cost', 'demand_sd', 'lead_time']):
+			calls.append(('stockpyl.rq', fn, (), kw))
+	for kw in H(dict(order_quantity=300, holding_cost=0.225, stockout_cost=7.5, demand_mean=1300, demand_sd=150, lead_time=1 / 12), ['order_quantity', 'stockout_cost', 'demand_sd']):
+		calls.append(('stockpyl.rq', 'r_q_optimal_r_for_q', (), kw))
+	for kw in H(dict(reorder_point=130, order_quantity=300, holding_cost=0.225, stockout_cost=7.5, fixed_cost=8, demand_mean=1300, demand_sd=150, lead_time=1 / 12), ['reorder_point', 'fixed_cost', 'demand_sd']):
+		calls.append(('stockpyl.rq', 'r_q_cost', (), kw))
+	core.history_check(rep, 'call-history', calls, theorem=THEOREM)
 
 
 def replay(rep, drv, doc):
